@@ -16,6 +16,7 @@ import FendModel.Model.Dist
 import FendModel.Model.UnitLookup
 import FendModel.Model.Units
 import FendModel.Model.NumLit
+import FendModel.Model.Root
 
 open Fend Fend.Proto
 
@@ -516,6 +517,27 @@ def numlitLine (line : String) : String :=
           (match pfx with | .plain => "plain" | .custom => "custom" | .zero => "zero") ++ " rest=" ++ packedOfStr (String.ofList rest)
   | _ => "bad-op"
 
+/-- `nat <x> <n>` | `pow <num> <den> <+|-> <p> <q>` (all simplified, base non-negative) -/
+def rootsLine (line : String) : String :=
+  match line.trimAscii.toString.splitOn " " with
+  | ["nat", x, n] =>
+    match x.toNat?, n.toNat? with
+    | some x, some n =>
+      if n = 0 then "bad-op" else
+      match Fend.Root.rootNat x n with
+      | some (r, e) => s!"ok {r} {if e then "exact" else "approx"}"
+      | none => "err fuel"
+    | _, _ => "bad-op"
+  | ["pow", a, b, sg, p, q] =>
+    match a.toNat?, b.toNat?, p.toNat?, q.toNat? with
+    | some a, some b, some p, some q =>
+      if b = 0 || q = 0 then "bad-op" else
+      match Fend.Root.ratPow a b (sg = "-") p q with
+      | some (v, e) => s!"ok {showRatQ v} {if e then "exact" else "approx"}"
+      | none => "err fuel"
+    | _, _, _, _ => "bad-op"
+  | _ => "bad-op"
+
 partial def loop (h : IO.FS.Stream) (out : IO.FS.Stream) (f : String → String) : IO Unit := do
   let line ← h.getLine
   if line.isEmpty then return ()
@@ -542,6 +564,7 @@ def main (args : List String) : IO UInt32 := do
   | ["unitlookup"] => loop stdin stdout unitLookupLine; return 0
   | ["units"] => loop stdin stdout unitsLine; return 0
   | ["ratfmt"] => loop stdin stdout ratfmtLine; return 0
+  | ["roots"] => loop stdin stdout rootsLine; return 0
   | ["numlit"] => loop stdin stdout numlitLine; return 0
   | ["clirun"] => loop stdin stdout clirunLine; return 0
   | _ => IO.eprintln "usage: fend_model_driver <stream>"; return 2
